@@ -1124,8 +1124,14 @@ where
             Some(b'u') => {
                 if self.read.remain() < 6 {
                     return perr!(self, EofWhileParsing);
-                } else {
-                    self.read.eat(5);
+                }
+                let valid = self
+                    .read
+                    .peek_n(5)
+                    .is_some_and(|s| s[1..].iter().all(u8::is_ascii_hexdigit));
+                self.read.eat(5);
+                if !valid {
+                    return perr!(self, InvalidUnicodeCodePoint);
                 }
             }
             Some(c) => {
